@@ -32,11 +32,16 @@ pub fn progress_sx(eg: &EGraph<LV>) -> Sx {
 }
 
 /// run the ops; `after_op` is called after every successful op
-pub fn run_history(case: &Sx, mut after_op: impl FnMut(&mut Hist, usize)) -> Hist {
+pub fn run_history(case: &Sx, after_op: impl FnMut(&mut Hist, usize)) -> Hist {
+    run_history_in(case, EGraph::default(), after_op)
+}
+
+/// the same on a given (empty) e-graph, e.g. one created with another substitution method
+pub fn run_history_in(case: &Sx, eg0: EGraph<LV>, mut after_op: impl FnMut(&mut Hist, usize)) -> Hist {
     let l = case.as_lst();
     let terms: Vec<RecExpr<LV>> = l[2].as_lst()[1..].iter().map(dec_rterm).collect();
     let ops: Vec<Sx> = l[3].as_lst()[1..].to_vec();
-    let mut h = Hist { eg: EGraph::default(), terms, handles: vec![], handle_term: vec![], unions: vec![], err: None, per_op: vec![] };
+    let mut h = Hist { eg: eg0, terms, handles: vec![], handle_term: vec![], unions: vec![], err: None, per_op: vec![] };
     for (oi, op) in ops.iter().enumerate() {
         let v = op.as_lst();
         let r = std::panic::catch_unwind(std::panic::AssertUnwindSafe(|| {
